@@ -69,7 +69,7 @@ def mutate(ch, text):
     return ''.join(s)[:400]
 
 
-NAME_POOL = [':--foo', ':--Foo', ':--FOO', ':--bar', ':--b\\61r', ':--b\\61 r', ':-x', '--x', ':--', '', ':', ':--a b',
+NAME_POOL = [':--foo', ':--Foo', ':--FOO', ':--bar', ':--b\\61r', ':--b\\61 r', ':--b\\41r', ':--\\46oo', ':-x', '--x', ':--', '', ':', ':--a b',
              ':--\\', ':--é', '::--x', ':--x(', ':--0', ':---', ':--foo\\', 'foo', ':--\\66oo', ':--f\x00o']
 
 
@@ -145,7 +145,9 @@ def _norm_name(k):
     low = ''.join(chr(ord(c) + 32) if 'A' <= c <= 'Z' else c for c in k)
     try:
         from soupsieve import css_parser as cp
-        return cp.css_unescape(low)
+        un = cp.css_unescape(low)
+        # names are compared case-insensitively *after* un-escaping (`:--\\41` is `:--a`)
+        return ''.join(chr(ord(c) + 32) if 'A' <= c <= 'Z' else c for c in un)
     except Exception:  # noqa: BLE001
         return low
 
